@@ -126,6 +126,31 @@ def extra_run(man, tier, seed, only=None, extended=False):
         obligations.append({'name': 'corr:KsTwoAsymptotic.cdf_pdf(hand model)', 'kind': 'corr', 'ok': not bad, 'site': 'KsTwoAsymptotic.cdf',
                             'detail': (bad[0]['line'] + ' impl=' + bad[0]['impl'] + ' model=' + bad[0]['model']) if bad else '', 'cases': bad[:3]})
         lines = lines + kl
+    # InvGaussian (cdf not translated: stub op): F(x) = Phi(a) + exp(2 lambda / mu) Phi(b), a = sqrt(lambda/x)(x/mu - 1),
+    # b = -sqrt(lambda/x)(x/mu + 1), with Phi through erfc (python); lambda / mu up to e^5
+    if only in (None, 'InvGaussian') and not extended and 'InvGaussian.cdf_real' in man['defs']:
+        import math
+
+        def Phi(z):
+            return 0.5 * math.erfc(-z / math.sqrt(2.0))
+        il, im = [], []
+        for _ in range(n * 3):
+            mu = math.exp(rng.uniform(-2, 2))
+            lam = mu * math.exp(rng.uniform(-3, 5))
+            x = mu * math.exp(rng.uniform(-2, 2))
+            il.append(f'InvGaussian.cdf_real f64 {enc((mu, lam))} {enc(x)}')
+            im.append((mu, lam, x))
+        ii, _ = run_pair(il, want_model=False)
+        for l, a, (mu, lam, x) in zip(il, ii, im):
+            if a == 'NOOP':
+                break
+            pb = Phi(-math.sqrt(lam / x) * (x / mu + 1))
+            ref = Phi(math.sqrt(lam / x) * (x / mu - 1)) + (math.exp(2 * lam / mu + math.log(pb)) if pb > 0 else 0.0)
+            c = tok_to_float(a) if a.startswith('x') else float('nan')
+            if not (abs(c - ref) <= 1e-8):
+                failures.append({'site': 'InvGaussian.cdf_real', 'case': l, 'impl': a, 'expected': f'{ref!r} within 1e-8', 'observed': 'value' if c == c else 'nan',
+                                 'detail': f'lambda/mu = {lam / mu:.3g}', 'kind': 'f64', 'params': [mu, lam], 'x': x})
+        lines = lines + il
     return {'obligations': obligations, 'failures': failures, 'stats': {'evaluations': len(lines), 'distinct_nontrivial': len(set(lines))},
             'samples': lines[:2]}
 
